@@ -6,6 +6,7 @@ RULE = ("cs.chars <cs> <mode> <encoding> / cs.new / cs.fromstr: all 1- and 2-oct
         "boundary alphabet {7f,80,8f,90,9f,a0,bf,c0} for 3-4 octet forms, random valid text in several scripts, each under random "
         "segmentations (split inside a multi-octet character, empty segments), 4 character sets x 3 modes x all constructors. "
         "non-trivial = accepted.")
+CROSS = {'C16': 2000, 'C17': 1500, 'C07': 1500}   # cross streams: samples of neighbouring properties' request streams (outcomes, model <-> implementation)
 EXHAUSTIVE = {"quick": False, "thorough": False}
 EXHAUSTIVE_NOTE = {"quick": "all octet strings of <= 2 octets x 4 character sets (primitive, BER)", "thorough": "same plus all 3-octet strings for UTF-8"}
 ASSUMPTIONS = ["Rust strings given to from_str/from_string are valid UTF-8 by construction"]
